@@ -346,6 +346,26 @@ def hostSigGate (sig : Bytes) (algo : Bytes) (cryptoValid : Bool) : Bool :=
   | some fmt => fmt == algo && cryptoValid
   | none => false
 
+/-- `underlyingAlgo`: certificate algorithm names map to the signature algorithm of the certified key
+    (`certKeyAlgoNames`); every other name is its own signature algorithm -/
+def underlyingAlgo (algo : String) : String :=
+  if algo == "ssh-rsa-cert-v01@openssh.com" then "ssh-rsa"
+  else if algo == "rsa-sha2-256-cert-v01@openssh.com" then "rsa-sha2-256"
+  else if algo == "rsa-sha2-512-cert-v01@openssh.com" then "rsa-sha2-512"
+  else if algo == "ssh-dss-cert-v01@openssh.com" then "ssh-dss"
+  else if algo == "ecdsa-sha2-nistp256-cert-v01@openssh.com" then "ecdsa-sha2-nistp256"
+  else if algo == "ecdsa-sha2-nistp384-cert-v01@openssh.com" then "ecdsa-sha2-nistp384"
+  else if algo == "ecdsa-sha2-nistp521-cert-v01@openssh.com" then "ecdsa-sha2-nistp521"
+  else if algo == "sk-ecdsa-sha2-nistp256-cert-v01@openssh.com" then "sk-ecdsa-sha2-nistp256@openssh.com"
+  else if algo == "ssh-ed25519-cert-v01@openssh.com" then "ssh-ed25519"
+  else if algo == "sk-ssh-ed25519-cert-v01@openssh.com" then "sk-ssh-ed25519@openssh.com"
+  else algo
+
+/-- `verifyHostKeySignature(hostKey, algo, result)` for the negotiated host key algorithm `algo` (plain or certificate):
+    for a certificate the key that must have signed H is the certified key (`Certificate.Verify` = `c.Key.Verify`) -/
+def hostSigGateFor (sig : Bytes) (algo : String) (cryptoValid : Bool) : Bool :=
+  hostSigGate sig (underlyingAlgo algo).toUTF8.toList cryptoValid
+
 /-! ## the fixed groups -/
 
 def oakley2Hex : String := "FFFFFFFFFFFFFFFFC90FDAA22168C234C4C6628B80DC1CD129024E088A67CC74020BBEA63B139B22514A08798E3404DDEF9519B3CD3A431B302B0A6DF25F14374FE1356D6D51C245E485B576625E7EC6F44C42E9A637ED6B0BFF5CB6F406B7EDEE386BFB5A899FA5AE9F24117C4B1FE649286651ECE65381FFFFFFFFFFFFFFFF"
